@@ -285,21 +285,21 @@ SPECS["C11"] = {
                    "parked for the source leaves exactly once (counter totals and event counts compared), tagged and re-sourced iff an instance was found; no "
                    "second lookup while one is outstanding; emitted gauges equal the true numbers; the invariant is re-established. LOOP: the real CloudHandler.Run goroutine (select "
                    "over lookup hand-off, answers, incoming metrics and events, unbuffered channels as built by NewCloudHandler) with the real DispatchMetricMap / DispatchEvent entry points, "
-                   "a harness cache whose per-source content is symbolic (unknown / known without instance / known with instance) and whose lookup channels the harness serves, 2..3 items "
-                   "(metric batch or event, source and value symbolic, the last one optionally arriving while lookups are outstanding), answers in a symbolic order with symbolic outcomes: "
+                   "a harness cache whose per-source content is symbolic (unknown / known without instance / known with instance) and whose lookup channels the harness serves, 2 (3) items "
+                   "(metric batch of one source, metric batch with a series of each source, or event; source and value symbolic; the last one optionally arriving while lookups are outstanding), answers in a symbolic order with symbolic outcomes: "
                    "items of known sources leave at once, nothing of an unknown source leaves before its answer, exactly one lookup request per unknown source with items (none surplus - "
                    "checked by a receive that only a timer ends), the waiting gauges equal the true numbers, after an answer every waiting item of that source has left exactly once, tags "
                    "and source follow the outcome, nothing is left waiting or counted at the end.",
-    "bounds": {"quick": "2 sources, <= 2 parked events per source in the arbitrary state; histories of <= 3 commands; loop: 2..3 items", "thorough": "histories of <= 4 commands"},
+    "bounds": {"quick": "2 sources, <= 2 parked events per source in the arbitrary state; histories of <= 3 commands; loop: 2 items", "thorough": "histories of <= 4 commands; loop: 3 items"},
     "outside": ["real concurrency between dispatchers and the owner goroutine beyond the engine's cooperative interleavings (goroutines switch at blocking operations; every multi-ready select forked)",
                 "context cancellation during dispatch"],
     "assumptions": STUBS_COMMON + [MATH_NOTE, "the step harness's invariant is an exact description of the handler state over the ghost variables; a step counterexample replays natively from that state"],
     "jobs": [
         {"pkg": "./pkg/statsd", "harness": "pkg/statsd", "mode": "math",
-         "entries": {"quick": ["VerifC11_Step", "VerifC11_Hist2", "VerifC11_Hist3", "VerifC11_Loop2", "VerifC11_Loop3", "VerifC11_Twin"],
+         "entries": {"quick": ["VerifC11_Step", "VerifC11_Hist2", "VerifC11_Hist3", "VerifC11_Loop2", "VerifC11_Twin"],
                      "thorough": ["VerifC11_Step", "VerifC11_Hist2", "VerifC11_Hist3", "VerifC11_Hist4", "VerifC11_Loop2", "VerifC11_Loop3", "VerifC11_Twin"]},
          "reach": {"VerifC11_Step": ["emit", "event-hit", "event-parked", "events-released", "lookup-sent", "metric-hit", "metric-parked", "metrics-released"],
-                   "VerifC11_Loop3": ["answered", "late-item", "loop-done"]},
+                   "VerifC11_Loop2": ["answered", "late-item", "loop-done", "mixed-batch"], "VerifC11_Loop3": ["answered", "late-item", "loop-done", "mixed-batch"]},
          "twin": {"VerifC11_Twin": True}, "blocked_is_violation": True,
          "limits": {"quick": {"timeout": "600s"}, "thorough": {"timeout": "1800s"}}},
     ],
@@ -318,17 +318,20 @@ SPECS["C12"] = {
                    "optionally letting the batch timer fire in between, the provider (batch limit 1..2) answers every call fully / partially / with nothing / with an error (symbolic), "
                    "the answers are read; then the mock clock moves one refresh period and the re-query answers are read. Asserted: one answer per submission, one query per submission, "
                    "1..max-batch sources per call, nobody waiting with a surplus answer, a source is served as resolved exactly when some answer so far resolved it, the gauges equal the "
-                   "entry counts, an entry expires one (negative) TTL after its latest answer, idle entries are evicted and entries past their TTL are re-queried exactly once at the tick.",
+                   "entry counts, an entry expires one (negative) TTL after its latest answer, idle entries are evicted and entries past their TTL are re-queried exactly once at the tick. "
+                   "LOOP-BUSY: two cached sources, TTLs 30 s, idle period 90 s: the first tick re-queries both while the provider is slow (its calls wait at a gate the harness holds), the "
+                   "second tick - earlier refresh queries still under way, one of them possibly still waiting to be handed to the dispatcher - must evict both at once; when the gate opens "
+                   "every refresh query is answered exactly once.",
     "bounds": {"quick": "2 sources; all option values in [0, 24h]/[0, 240h]; instants between 2020 and 2030; loop: 1..2 submissions, 3 provider outcomes, TTLs / idle period from {30 s, 5 min / 10 min}, one refresh tick",
                "thorough": "loop: 1..3 submissions, all 5 provider outcomes"},
     "outside": ["real concurrency between Peek and the owner goroutine", "schedules other than the engine's cooperative ones (goroutines switch at blocking operations; every multi-ready select forked)", "a finite rate limit"],
     "assumptions": STUBS_COMMON + [MATH_NOTE, TIME_MODEL],
     "jobs": [
         {"pkg": "./pkg/cachedinstances/cloudprovider", "harness": "pkg/cachedinstances/cloudprovider", "mode": "math",
-         "entries": {"quick": ["VerifC12_Info", "VerifC12_Refresh", "VerifC12_Peek", "VerifC12_Lookup", "VerifC12_Loop", "VerifC12_LoopTwin", "VerifC12_Twin"],
-                     "thorough": ["VerifC12_Info", "VerifC12_Refresh", "VerifC12_Peek", "VerifC12_Lookup", "VerifC12_Loop", "VerifC12_LoopFull", "VerifC12_LoopTwin", "VerifC12_Twin"]},
+         "entries": {"quick": ["VerifC12_Info", "VerifC12_Refresh", "VerifC12_Peek", "VerifC12_Lookup", "VerifC12_Loop", "VerifC12_LoopBusy", "VerifC12_LoopTwin", "VerifC12_Twin"],
+                     "thorough": ["VerifC12_Info", "VerifC12_Refresh", "VerifC12_Peek", "VerifC12_Lookup", "VerifC12_Loop", "VerifC12_LoopBusy", "VerifC12_LoopFull", "VerifC12_LoopTwin", "VerifC12_Twin"]},
          "reach": {"VerifC12_Info": ["kept-on-error", "positive-answer"], "VerifC12_Refresh": ["evicted", "requeued"], "VerifC12_Peek": ["hit"], "VerifC12_Lookup": ["lookup"],
-                   "VerifC12_Loop": ["refreshed", "evicted", "loop-done"], "VerifC12_LoopFull": ["refreshed", "evicted", "loop-done"]},
+                   "VerifC12_Loop": ["refreshed", "evicted", "loop-done"], "VerifC12_LoopBusy": ["evicted-while-busy", "busy-done"], "VerifC12_LoopFull": ["refreshed", "evicted", "loop-done"]},
          "twin": {"VerifC12_Twin": True, "VerifC12_LoopTwin": True}, "blocked_is_violation": True,
          "limits": {"quick": {"timeout": "600s"}, "thorough": {"timeout": "1800s"}}},
     ],
